@@ -130,6 +130,9 @@ class VN(Problem):
                 return a
         if isinstance(e, ast.NamedExpr):
             return self.val(e.value, env, nid)
+        if isinstance(e, (ast.Tuple, ast.List)) and e.elts and not any(isinstance(x, ast.Starred) for x in e.elts):
+            # a tuple of values: kept component-wise, so that `saved = (a, b); ...; (a, b) = saved` restores each component
+            return ("tuple",) + tuple(self.val(x, env, nid) for x in e.elts)
         return ("def", nid, U(e))
 
     # ------------------------------------------------------------------ stores
@@ -339,6 +342,10 @@ class VN(Problem):
 
     def _assign_target(self, env: dict, t: ast.AST, v: Val, nid: int, single: bool) -> None:
         if isinstance(t, (ast.Tuple, ast.List)):
+            if isinstance(v, tuple) and v and v[0] == "tuple" and len(v) - 1 == len(t.elts) and not any(isinstance(e, ast.Starred) for e in t.elts):
+                for e, ve in zip(t.elts, v[1:]):
+                    self._assign_target(env, e, ve, nid, False)
+                return
             for e in t.elts:
                 self._assign_target(env, e, ("def", nid, "unpack:" + U(e)), nid, False)
             return
